@@ -18,9 +18,11 @@ import (
 )
 
 type step struct {
-	kind    string // fbp | tbe
+	kind    string // fbp | tbe | tbe-noindex (TBE on a reference that was never indexed)
 	threads int
-	boots   []*core.N
+	reroot  int // > 0: before the call the reference object is indexed and re-rooted, by the real Reroot, on its
+	// inner node number reroot-1: the branch ids travel with the branches and are no longer in Edges() order
+	boots []*core.N
 }
 
 type session struct {
@@ -34,7 +36,7 @@ type stepResult struct{ out, before, after string }
 func (s session) encode() string {
 	var parts []string
 	for _, st := range s.steps {
-		parts = append(parts, fmt.Sprintf("%s;%d;%s", st.kind, st.threads, core.Dumps(st.boots)))
+		parts = append(parts, fmt.Sprintf("%s^%d;%d;%s", st.kind, st.reroot, st.threads, core.Dumps(st.boots)))
 	}
 	return s.share + "@" + s.ref.Dump() + "@" + strings.Join(parts, "#")
 }
@@ -55,6 +57,10 @@ func decodeSession(x string) (session, bool) {
 			return session{}, false
 		}
 		st := step{kind: g[0], boots: parseDumps(g[2])}
+		if kr := strings.SplitN(g[0], "^", 2); len(kr) == 2 {
+			st.kind = kr[0]
+			fmt.Sscanf(kr[1], "%d", &st.reroot)
+		}
 		fmt.Sscanf(g[1], "%d", &st.threads)
 		s.steps = append(s.steps, st)
 	}
@@ -87,6 +93,22 @@ func runSessionInproc(s session) []stepResult {
 		if t == nil {
 			t = build(s.ref)
 		}
+		if st.reroot > 0 {
+			core.Safe(func() {
+				if t.ReinitIndexes() != nil {
+					return
+				}
+				var inner []*tree.Node
+				for _, n := range t.Nodes() {
+					if !n.Tip() && n != t.Root() {
+						inner = append(inner, n)
+					}
+				}
+				if len(inner) > 0 && len(t.Root().Neigh()) >= 3 {
+					t.Reroot(inner[(st.reroot-1)%len(inner)])
+				}
+			})
+		}
 		ok, before := dumpOrNan(t)
 		if ok != "ok" {
 			// the previous call left something that is not a number: nothing sensible to judge from here on
@@ -98,6 +120,10 @@ func runSessionInproc(s session) []stepResult {
 		out, _ := guarded(func() error {
 			if st.kind == "fbp" {
 				return support.FBP(t, ch, st.threads, sup)
+			}
+			if st.kind == "tbe-noindex" {
+				_, err := support.TBE(t, ch, st.threads, false, false, false, 0.3, nil, sup)
+				return err
 			}
 			if err := t.ReinitIndexes(); err != nil {
 				return err
@@ -169,7 +195,9 @@ func sessionCase(c *core.Ctx) {
 	g := c.G
 	saved := smallFirst
 	smallFirst = g.Chance(0.5)
+	funnyOKLib = true
 	ref := refTree(c)
+	funnyOKLib = false
 	smallFirst = saved
 	s := session{share: shareKinds[g.Intn(len(shareKinds))], ref: ref}
 	n := 2 + g.Intn(2)
@@ -177,6 +205,12 @@ func sessionCase(c *core.Ctx) {
 		st := step{kind: []string{"fbp", "tbe", "tbe"}[g.Intn(3)], threads: 1}
 		if g.Chance(0.25) {
 			st.threads = threadChoices[g.Intn(len(threadChoices))]
+		}
+		if g.Chance(0.4) {
+			st.reroot = 1 + g.Intn(8)
+		}
+		if i == 0 && st.reroot == 0 && !strings.Contains(s.share, "ref") && g.Chance(0.3) {
+			st.kind = "tbe-noindex"
 		}
 		for k := 1 + g.Intn(4); k > 0; k-- {
 			st.boots = append(st.boots, bootTree(c, ref))
